@@ -402,6 +402,7 @@ class Interp:
             if isinstance(v, property):
                 return self.call(v.fget, [o], {})
             if name in o.attrs:
+                self.ctx.event('read', id(o), name)
                 return o.attrs[name]
             if k is None:
                 k2, ga = mro_lookup(o.cls, '__getattr__')
